@@ -519,7 +519,11 @@ func (we *wireEnv) observe(c *pipeCase, f wireFlags, o wireOut, step int) (obs *
 		obs.Resp = respSpec{Shape: shape + "/nothing-written", NoReply: true, Rcode: dns.RcodeServerFailure}
 	case run.sent["client"] != nil:
 		// the request passed dns64 undecoded: what the stub sent is what came back
-		obs.Resp = specFromMsg(run.sent["client"], shape, "")
+		mark := ""
+		if strings.HasPrefix(c.Resp.Mark, "local-") {
+			mark = c.Resp.Mark // put on by the stub itself
+		}
+		obs.Resp = specFromMsg(run.sent["client"], shape, mark)
 		sent := run.sent["client"].Copy()
 		if o.res.Msg != nil {
 			// a cache in between may only have aged the records
@@ -540,6 +544,9 @@ func (we *wireEnv) observe(c *pipeCase, f wireFlags, o wireOut, step int) (obs *
 			rc = o.res.Msg.Rcode
 		}
 		obs.Resp = respSpec{Shape: shape + "/answered-above-the-stub", Rcode: rc}
+		if step == 2 && rc == dns.RcodeServerFailure && c.Resp.Rcode != dns.RcodeSuccess {
+			obs.Resp.Mark = "cached" // the cache's wire ladder served the recorded failure
+		}
 	}
 	if aRec != nil {
 		if aRec.msg == nil {
@@ -566,6 +573,7 @@ func (we *wireEnv) observe(c *pipeCase, f wireFlags, o wireOut, step int) (obs *
 // ---------------------------------------------------------------- projection for the differential
 
 type wireProj struct {
+	basis  string // what the execution was answered from below dns64
 	ok     bool
 	rcode  int
 	ad, tc bool
@@ -573,7 +581,7 @@ type wireProj struct {
 	cname  string // PTR: target of the redirect owned by the query name
 }
 
-func project(o wireOut, c *pipeCase, tag string, ptr bool) (p wireProj) {
+func project(o wireOut, c *pipeCase, tag string, ptr, maskTTL bool) (p wireProj) {
 	m := o.res.Msg
 	if m == nil || o.res.Panic != nil {
 		return p
@@ -586,8 +594,11 @@ func project(o wireOut, c *pipeCase, tag string, ptr bool) (p wireProj) {
 			}
 			continue // chased PTR records come from a cache shared between executions
 		}
-		s := strings.ReplaceAll(strings.ToLower(rr.String()), tag, "")
-		p.answer = append(p.answer, strings.Join(strings.Fields(s), " "))
+		fs := strings.Fields(strings.ReplaceAll(strings.ToLower(rr.String()), tag, "<tag>"))
+		if maskTTL && len(fs) > 1 {
+			fs[1] = "-" // a repeated question may be answered from aged cache entries
+		}
+		p.answer = append(p.answer, strings.Join(fs, " "))
 	}
 	sort.Strings(p.answer)
 	return p
@@ -600,6 +611,9 @@ func (p wireProj) diff(q wireProj, ptr bool) string {
 		return ""
 	}
 	switch {
+	case p.basis != q.basis:
+		// e.g. one execution was held up past the failure cache's hold time
+		return "-"
 	case p.rcode != q.rcode:
 		return "rcode"
 	case p.ad != q.ad:
@@ -773,7 +787,7 @@ func (we *wireEnv) gatesOpen(c *pipeCase, f wireFlags) bool {
 }
 
 // judgeWire judges one execution (one entry, one step) of a case.
-func (we *wireEnv) judgeWire(r *vlib.Run, wc *wireCase, c *pipeCase, f wireFlags, entry string, step int, o wireOut, verbose bool) {
+func (we *wireEnv) judgeWire(r *vlib.Run, wc *wireCase, c *pipeCase, f wireFlags, entry string, step int, o wireOut, verbose bool) (basis string) {
 	born := "decoded"
 	if entry != "msg" {
 		born = "wireborn"
@@ -795,6 +809,7 @@ func (we *wireEnv) judgeWire(r *vlib.Run, wc *wireCase, c *pipeCase, f wireFlags
 		r.Count(born+"_multiple_writes", 1)
 	}
 	obs, out, clientRec := we.observe(c, f, o, step)
+	basis = fmt.Sprintf("stub=%d mark=%s a=%s", o.run.clientStub, obs.Resp.Mark, obs.A.Mark)
 	if verbose && out.reply != nil {
 		fmt.Printf("--- %s/%s step %d (strict=%v undecoded-at-dns64=%v stub-calls=%d)\n%s\n", we.variant, entry, step, o.res.Strict, o.run.undecoded, len(o.run.calls), out.reply.String())
 	}
@@ -874,6 +889,7 @@ func (we *wireEnv) judgeWire(r *vlib.Run, wc *wireCase, c *pipeCase, f wireFlags
 		r.Count(born+"_request_local_failure_"+we.variant, 1)
 		r.Count(born+"_request_local_failure_"+mark, 1)
 	}
+	return basis
 }
 
 // runCase executes a case through every entry (each under its own names) and
@@ -892,13 +908,15 @@ func (we *wireEnv) runCase(r *vlib.Run, wc *wireCase, verbose bool) {
 		c.Cfg = wc.Cfg
 		f := caseFlags(c)
 		o := we.serve(c, f, entry, 0)
-		we.judgeWire(r, wc, c, f, entry, 1, o, verbose)
-		projs[entry] = append(projs[entry], stepProj{project(o, c, tag, ptr), hex.EncodeToString(o.res.Raw)})
+		p1 := project(o, c, tag, ptr, false)
+		p1.basis = we.judgeWire(r, wc, c, f, entry, 1, o, verbose)
+		projs[entry] = append(projs[entry], stepProj{p1, hex.EncodeToString(o.res.Raw)})
 		if wc.Step2 != nil {
 			f2 := wireFlags{Client: wc.Step2.Client, Proto: c.Proto, RD: true, EDNS: wc.Step2.EDNS, DO: wc.Step2.DO, AD: wc.Step2.AD}
 			o2 := we.serve(c, f2, entry, 1)
-			we.judgeWire(r, wc, c, f2, entry, 2, o2, verbose)
-			projs[entry] = append(projs[entry], stepProj{project(o2, c, tag, ptr), hex.EncodeToString(o2.res.Raw)})
+			p2 := project(o2, c, tag, ptr, true)
+			p2.basis = we.judgeWire(r, wc, c, f2, entry, 2, o2, verbose)
+			projs[entry] = append(projs[entry], stepProj{p2, hex.EncodeToString(o2.res.Raw)})
 		}
 	}
 	for _, entry := range entries[1:] {
@@ -912,10 +930,15 @@ func (we *wireEnv) runCase(r *vlib.Run, wc *wireCase, verbose bool) {
 				r.Count("entries_not_compared_truncated", 1)
 				continue
 			}
+			what := w.p.diff(d.p, ptr)
+			if what == "-" {
+				r.Count("entries_not_compared_different_basis", 1)
+				continue
+			}
 			r.Eval(1)
 			r.Count("entries_compared", 1)
 			r.Count("entries_compared_"+entry, 1)
-			if what := w.p.diff(d.p, ptr); what != "" {
+			if what != "" {
 				rep := *wc
 				rep.Entry, rep.Step, rep.ReplyHex = entry, si+1, w.hex
 				r.Violation("wire/differs-from-decoded/"+what,
@@ -967,6 +990,7 @@ func replayWire(r *vlib.Run, raw json.RawMessage) {
 		return
 	}
 	defer we.close()
+	r.Sample(map[string]any{"kind": "wire-replay", "variant": wc.Variant, "flow": wc.Flow, "qname": wc.Case.Qname, "prefixes": wc.Cfg.Prefixes})
 	we.runCase(r, &wc, true)
 }
 
